@@ -117,5 +117,13 @@ func (s SuffrageProof) Prove(previousState base.State) error {
 		return e.WithMessage(err, "prove suffrage")
 	}
 
+	// NOTE the proof should lead to the states tree of the block
+	switch nodes, root := s.proof.Nodes(), s.m.Manifest().StatesTree(); {
+	case len(nodes) < 1 || nodes[len(nodes)-1] == nil || root == nil:
+		return e.Errorf("empty states tree root")
+	case !nodes[len(nodes)-1].Hash().Equal(root):
+		return e.Errorf("proof root does not match with states tree of manifest")
+	}
+
 	return nil
 }
